@@ -462,10 +462,14 @@ Walk:
 		if charsMatched < len(path) {
 			// linear search
 			idx := -1
-			for i := 0; i < len(current.childKeys); i++ {
-				if current.childKeys[i] == path[charsMatched] {
-					idx = i
-					break
+			// A '{' or '*' in the request is never static text: the wildcard children are evaluated below
+			// in priority order (named parameter first, then catch-all).
+			if path[charsMatched] != bracketDelim && path[charsMatched] != starDelim {
+				for i := 0; i < len(current.childKeys); i++ {
+					if current.childKeys[i] == path[charsMatched] {
+						idx = i
+						break
+					}
 				}
 			}
 
